@@ -13,7 +13,15 @@ the documented extraction variants.
 3. code -> spec: random byte-level mutations of documented headers and round trips of random contexts
    run through the real propagators; each header byte abstracted to a token; B3JaegerTrace.tla (TLC,
    token-level formulation of the same contract, kept consistent by the invariant Agree) decides.
+4. (round 4) the tail family of the same spec: header values given as TOKENS (one per byte, every byte value
+   has exactly one token) - every prefix (length 0 .. full + 1) of the documented forms of each header kind
+   with one of its last positions replaced by every token, and every token string of length <= ShortLen;
+   TLC checks the clauses that apply (TailAcceptDocumented, TailNoSeparator, TailEmptyIsAbsent, TailAnchored)
+   and prints the expected outcome (token-level contract); the harness expands the replaced / class positions
+   to ALL byte values, hands each value over as a view into an exactly-sized heap block (ASan) and once more
+   followed in-buffer by the form's continuation / adversarial bytes (identical observation demanded).
 The oracle is always TLC (BEH expectation or acceptance by the trace spec)."""
+import concurrent.futures as cf
 import json
 
 from lib import build, propagation, tlc
@@ -30,13 +38,38 @@ CFG = """CONSTANTS
   NFlag = 256
   JRep = {0, 1, 2, 3, 255}
   MaxFaults = %(k)d
+  TailBases = {}
+  TailPos = 0
+  TailComp = {}
+  ShortKinds = {}
+  ShortLen = 0
 INIT Init
 NEXT Next
 CONSTRAINT Budget
 INVARIANTS %(inv)s
 """
+TAIL_CFG = """CONSTANTS
+  Dev = {}
+  TidC = {"rand"}
+  SidC = {"rand"}
+  NFlag = 256
+  JRep = {1}
+  MaxFaults = 0
+  TailBases = {%(bases)s}
+  TailPos = %(pos)d
+  TailComp = {%(comp)s}
+  ShortKinds = {"b3", "mt", "ms", "mf", "jg"}
+  ShortLen = %(shortlen)d
+INIT InitTail
+NEXT Next
+INVARIANTS TypeOK TailTypeOK TailAcceptDocumented TailNoSeparator TailEmptyIsAbsent TailAnchored EmitAll
+"""
+TAIL_TIERS = {"quick": {"bases": ["b3full", "mt", "ms", "mf", "jgfull", "jgurl"], "pos": 2, "comp": ["none"], "shortlen": 2},
+              "thorough": {"bases": ["b3full", "b3pad", "mt", "ms", "mf", "jgfull", "jgpar0", "jgurl"], "pos": 3,
+                           "comp": ["none", "wf"], "shortlen": 3}}
+TAIL_ID0 = 3 * 10 ** 9
 INVS = ("TypeOK RoundTrip AcceptNonZero Pad64 DebugIsSampled MissingNotSampled SinglePrecedence NothingFromNothing "
-        "ZeroNeverInstalled Agree")
+        "ZeroNeverInstalled Agree TailTypeOK")
 TRACE_CFG = """CONSTANTS
   Dev = {%(dev)s}
   TidC = {"rand"}
@@ -44,6 +77,11 @@ TRACE_CFG = """CONSTANTS
   NFlag = 256
   JRep = {1}
   MaxFaults = 0
+  TailBases = {}
+  TailPos = 0
+  TailComp = {}
+  ShortKinds = {}
+  ShortLen = 0
 INIT TInit
 NEXT TNext
 CONSTRAINT Progress
@@ -70,8 +108,14 @@ def _k(ctx):
 
 
 def model_check(ctx):
-    """Two TLC runs: ideal (property invariants + coverage + EmitAll = the BEH lines) and as-implemented."""
+    """Three TLC runs: ideal (property invariants + coverage + EmitAll = the BEH lines), as-implemented, and the
+    tail family (its own initial states; runs beside the other two)."""
     k = _k(ctx)
+    tt = TAIL_TIERS[ctx.tier]
+    ct = _cfg(ctx, "mc-tail.cfg", TAIL_CFG % {"bases": _devset(tt["bases"]), "pos": tt["pos"], "comp": _devset(tt["comp"]),
+                                              "shortlen": tt["shortlen"]})
+    ex = cf.ThreadPoolExecutor(max_workers=1)
+    ftail = ex.submit(tlc.tlc, MODULE, ct, rundir=ctx.rundir.path, workers=3, timeout_s=900, tag="mc-tail")
     # the named deviation concerns Inject (and the extraction of what it wrote); the carrier mutation graph
     # does not depend on Dev and is explored in the ideal run
     c = _cfg(ctx, "mc-dev.cfg", CFG % {"dev": _devset(ALLDEVS), "k": 0, "inv": INVS})
@@ -85,7 +129,59 @@ def model_check(ctx):
     for a in ("Init", "Inject", "ExtractRT", "Extract", "MutS", "MutM", "MutJ"):
         if r.coverage.get(a, (0, 0))[0] == 0:
             raise Broken("vacuity: action %s never taken" % a)
-    return r
+    rt = ftail.result()
+    ex.shutdown()
+    ctx.add_tlc("%s tail family: prefixes of %s, last %d positions x every token, token strings of length <= %d "
+                "(+ behaviour export)" % (MODULE, "/".join(tt["bases"]), tt["pos"], tt["shortlen"]), rt)
+    tlc.must_ok(rt, "%s model checking (tail family)" % MODULE)
+    # (no -coverage here: every TailExtract step prints its BEH line; generate_tail counts them against the states)
+    return r, rt
+
+
+def generate_tail(ctx, rt):
+    """The tail family's BEH lines + the vacuity guards on what TLC enumerated."""
+    tt = TAIL_TIERS[ctx.tier]
+    cases = propagation.beh_cases(rt, "C16 tail generation")
+    if 2 * len(cases) != rt.distinct:
+        raise Broken("vacuity (tail family): %d states but %d TailExtract lines" % (rt.distinct, len(cases)))
+    toks = propagation.printed_any(rt.out, "TAILTOK")
+    if not toks or len(toks) != 27:
+        raise Broken("tail run did not print the token vocabulary: %s" % toks)
+    groups, outs, short = {}, {}, {}
+    for c in cases:
+        if c["k"] != "t":
+            raise Broken("tail run printed a line of kind %s" % c["k"])
+        c["id"] += TAIL_ID0
+        t = c["tl"]
+        outs[(c["fmt"], c["exp"]["o"])] = outs.get((c["fmt"], c["exp"]["o"]), 0) + 1
+        if t["b"] == "short":
+            short[t["h"]] = short.get(t["h"], 0) + 1
+        else:
+            groups.setdefault((t["b"], t["comp"], t["cut"], t["pos"]), set()).add(t["tok"])
+    need = [("b3", "accept"), ("b3", "either"), ("b3", "reject"), ("jg", "accept"), ("jg", "either"), ("jg", "reject")]
+    if any(outs.get(x, 0) == 0 for x in need):
+        raise Broken("vacuity (tail family): outcomes %s" % outs)
+    nshort = sum(27 ** i for i in range(tt["shortlen"] + 1))
+    if sorted(short) != ["b3", "jg", "mf", "ms", "mt"] or any(v != nshort for v in short.values()):
+        raise Broken("vacuity (tail family): short values %s, expected %d per header kind" % (short, nshort))
+    cuts = {}
+    for (b, comp, cut, pos), tk in groups.items():
+        cuts.setdefault((b, comp), {}).setdefault(cut, set()).add(pos)
+        if pos > 0 and tk != set(toks):
+            raise Broken("vacuity (tail family): %s cut %d pos %d only has tokens %s" % (b, cut, pos, sorted(tk)))
+    if sorted(set(b for b, _ in cuts)) != sorted(tt["bases"]):
+        raise Broken("vacuity (tail family): bases %s" % sorted(cuts))
+    lengths = {}
+    for (b, comp), cs in cuts.items():
+        top = max(cs)
+        if sorted(cs) != list(range(top + 1)) or any(cs[n] != set(range(min(n, tt["pos"]) + 1)) for n in cs):
+            raise Broken("vacuity (tail family): prefixes of %s/%s incomplete" % (b, comp))
+        lengths["%s/%s" % (b, comp)] = top
+    ctx.extra["tail_family"] = {"cases": len(cases), "token_classes": len(toks),
+                                "prefix_lengths_0_to": lengths, "positions_replaced": tt["pos"],
+                                "short_values_per_header_kind": nshort,
+                                "expected": {"%s/%s" % k: v for k, v in sorted(outs.items())}}
+    return cases
 
 
 def generate(ctx, r):
@@ -231,6 +327,14 @@ def canaries(cases):
 def _what(cs, res):
     r = res.get("res", {})
     conc = r.get("concrete", {})
+    if cs["k"] == "t":
+        exp = {k: v for k, v in cs["exp"].items() if k in ("o", "src", "pad", "sampled")}
+        if r.get("depends_on_bytes_behind_the_view"):
+            return ("Extract(%s) read beyond the header value: %s (%s, behind the view: %s) gave %s, the same value in an exactly-sized "
+                    "buffer gave %s" % (cs["fmt"], json.dumps(conc.get("headers")), conc.get("buffer"), json.dumps(conc.get("behind")),
+                                        json.dumps(r.get("observed")), json.dumps(r.get("observed_with_exact_buffer"))))
+        return "Extract(%s) from %s (%s): expected %s, observed %s" % (cs["fmt"], json.dumps(conc.get("headers")), conc.get("buffer"),
+                                                                       json.dumps(exp), json.dumps(r.get("observed")))
     if cs["k"] == "x":
         return "Extract(%s) from %s: expected %s, observed %s" % (cs["fmt"], json.dumps(conc.get("headers")), json.dumps(cs["exp"]),
                                                                    json.dumps(r.get("observed")))
@@ -308,11 +412,77 @@ def replay_cases(ctx, exe, cases):
     shown = 0
     for cs in cases:
         r = results.get(cs["id"], {})
-        if "res" in r and r.get("v") == "ok" and shown < 3 and (shown == 0) == (cs["k"] == "rt"):
+        if "res" in r and r.get("v") == "ok" and shown < 2 and (shown == 0) == (cs["k"] == "rt"):
             ctx.sample({"kind": "TLC (abstract input, expected outcome) line, replayed %d times" % n, "case": cs, "result": r})
             shown += 1
     if shown == 0:
         ctx.sample({"kind": "TLC (abstract input, expected outcome) line", "case": cases[0], "result": results.get(cases[0]["id"])})
+
+
+def replay_tail(ctx, exe, tcases):
+    """The tail family: every case is expanded by the harness to all byte values of its replaced / class positions."""
+    skipped0 = ctx.extra.pop("cases_skipped_after_crash_cap", 0)      # (of the class-level replay)
+    results = propagation.run_cases(ctx, exe, tcases, 1, procs=4, tag="tail")
+    byid = {c["id"]: c for c in tcases}
+    # binding canaries: a corrupted expectation must be flagged (chosen among cases the real code passed)
+    can = []
+    for c in tcases:
+        r = results.get(c["id"], {})
+        if r.get("v") != "ok":
+            continue
+        kinds = set(x[0] for x in can)
+        if "accept" not in kinds and c["exp"]["o"] == "accept" and c["fmt"] == "jg":
+            k = json.loads(json.dumps(c))
+            k["exp"]["sampled"] = not k["exp"]["sampled"]
+            can.append(("accept", "uber-trace-id prefix = the full form expected with the other sampled bit", k))
+        if "either" not in kinds and c["exp"]["o"] == "either" and r.get("valid", 0) == r.get("n", -1):
+            k = json.loads(json.dumps(c))
+            k["exp"]["o"] = "reject"
+            can.append(("either", "a truncated form the code installs ids for expected to be rejected", k))
+        if "ids" not in kinds and c["exp"]["o"] == "accept" and c["fmt"] == "b3":
+            k = json.loads(json.dumps(c))
+            k["exp"]["sid"][-1] = (k["exp"]["sid"][-1] + 1) % 16
+            can.append(("ids", "b3 form expected with another span id", k))
+    crashed = any(r.get("v") == "crash" for r in results.values())
+    if len(can) != 3 and not crashed:
+        raise Broken("tail family: no case for a canary (%s)" % [x[0] for x in can])
+    for i, (_, _, k) in enumerate(can):
+        k["orig"], k["seed_id"], k["id"] = k["id"], k["id"], TAIL_ID0 + 10 ** 8 + i
+    cres = propagation.run_cases(ctx, exe, [k for _, _, k in can], 1, procs=1, tag="tailcanary") if can else {}
+    for _, why, k in can:
+        if cres.get(k["id"], {}).get("v") not in ("bad", "crash"):
+            raise Broken("binding canary not detected (tail family: %s): %s" % (why, cres.get(k["id"])))
+    ctx.extra["canaries_detected"] = ctx.extra.get("canaries_detected", 0) + len(can)
+    # completeness: at every (form, prefix length, replaced position) the classes of the 27 tokens are all 256 byte values
+    clean = all(r.get("v") == "ok" for r in results.values()) and len(results) == len(tcases)
+    groups, execs = {}, 0
+    for cid, r in results.items():
+        execs += r.get("n", 0)
+        t = byid[cid]["tl"] if cid in byid else None
+        if t and t["b"] != "short" and t["pos"] > 0:
+            g = (t["b"], t["comp"], t["cut"], t["pos"])
+            groups[g] = groups.get(g, 0) + r.get("bytes", 0)
+    if clean and (not groups or any(v != 256 for v in groups.values())):
+        raise Broken("tail family: byte values per (form, prefix, position) are not 256: %s" % sorted(
+            (g, v) for g, v in groups.items() if v != 256)[:5])
+    cnt = classify(ctx, tcases, results, 1)
+    if skipped0 or ctx.extra.get("cases_skipped_after_crash_cap"):
+        ctx.extra["cases_skipped_after_crash_cap"] = skipped0 + ctx.extra.get("cases_skipped_after_crash_cap", 0)
+    ctx.extra["tail_family"].update({"executions": execs, "positions_swept_over_all_256_byte_values": len(groups),
+                                     "verdicts": {k: cnt[k] for k in ("ok", "bad", "crash")},
+                                     "observed_valid": cnt["valid"], "observed_unchanged": cnt["unchanged"]})
+    if clean and (cnt["valid"] == 0 or cnt["unchanged"] == 0):
+        raise Broken("vacuity (tail family): the real propagators never accepted / never rejected: %s" % cnt)
+    ctx.traces += len(tcases)
+    ctx.evaluations += execs
+    for c in tcases:
+        ctx.distinct.add(("beh", c["id"]))
+    for c in tcases:
+        r = results.get(c["id"], {})
+        if "res" in r and r.get("v") == "ok":
+            ctx.sample({"kind": "TLC tail-family line (token-level value, expected outcome), expanded to %d executions" % r.get("n", 0),
+                        "case": c, "result": r})
+            break
 
 
 def _describe(ev):
@@ -333,7 +503,9 @@ def record_validate(ctx, exe):
 def run(ctx):
     ctx.assumptions += [
         "memory safety (never crashes / reads out of bounds) is not decided by the specification: it is covered only by running the "
-        "model-generated inputs under AddressSanitizer+UBSan with exactly-sized, non-NUL-terminated carrier buffers",
+        "model-generated inputs under AddressSanitizer+UBSan with exactly-sized, non-NUL-terminated carrier buffers (tail family: "
+        "every byte value at the last positions of every prefix of the documented forms) and by demanding the same observation "
+        "when the value is followed in-buffer by other bytes",
         "concretisation table of harness/c16_b3jaeger.cc (abstract class -> bytes) is trusted",
         "ids are symbolic in the spec (classes) and sampled by the seeded concretiser; the 256 flag bytes are enumerated",
         "documented forms = lower-case hex, 32 or 16 digit trace id, 16 digit span id, b3 'tid-sid[-S[-parent]]' with S in 1/0/d, "
@@ -346,11 +518,16 @@ def run(ctx):
     exe = build.harness("c16_b3jaeger", ["c16_b3jaeger.cc"], "asan", need_sdk=False)
     phases = {}
     t0 = ctx.timer.s()
-    cases = generate(ctx, model_check(ctx))
+    r, rt = model_check(ctx)
+    cases = generate(ctx, r)
+    tcases = generate_tail(ctx, rt)
     phases["tlc_model_check_and_export_s"] = round(ctx.timer.s() - t0, 1)
     t0 = ctx.timer.s()
     replay_cases(ctx, exe, cases)
     phases["replay_s"] = round(ctx.timer.s() - t0, 1)
+    t0 = ctx.timer.s()
+    replay_tail(ctx, exe, tcases)
+    phases["replay_tail_s"] = round(ctx.timer.s() - t0, 1)
     t0 = ctx.timer.s()
     record_validate(ctx, exe)
     phases["record_validate_s"] = round(ctx.timer.s() - t0, 1)
